@@ -164,6 +164,14 @@ class HierDictDocument(DictDocument):
                                                     self.VALID_UNICODE_SOURCES):
             raise ValidationError([key, inst])
 
+    def _from_leaf(self, key, cls, inst, *args):
+        # document values can be of any kind (number, bool, list, dict...)
+        # whereas most readers only know how to parse text.
+        try:
+            return self.from_serstr(cls, inst, *args)
+        except (TypeError, AttributeError, ValueError):
+            raise ValidationError([key, inst])
+
     def _from_dict_value(self, ctx, key, cls, inst, validator):
         if validator is self.SOFT_VALIDATION:
             self.validate(key, cls, inst)
@@ -183,7 +191,7 @@ class HierDictDocument(DictDocument):
                 retval = self._doc_to_object(ctx, cls, inst, validator)
 
             else:
-                retval = self.from_serstr(cls, inst, self.binary_encoding)
+                retval = self._from_leaf(key, cls, inst, self.binary_encoding)
 
         else:
             inst = self._parse(cls_attrs, inst)
@@ -204,7 +212,8 @@ class HierDictDocument(DictDocument):
                     raise ValidationError([key, inst])
 
                 if issubclass(cls, (ByteArray, Uuid)):
-                    retval = self.from_serstr(cls, inst, self.binary_encoding)
+                    retval = self._from_leaf(key, cls, inst,
+                                                           self.binary_encoding)
 
                 elif issubclass(cls, Unicode):
                     if isinstance(inst, bytearray):
@@ -232,7 +241,7 @@ class HierDictDocument(DictDocument):
                         retval = inst
 
                 else:
-                    retval = self.from_serstr(cls, inst)
+                    retval = self._from_leaf(key, cls, inst)
 
         # validate native type
         if validator is self.SOFT_VALIDATION:
